@@ -80,6 +80,7 @@ type Cfg struct {
 	BlockHeavy bool
 	LongSizes  []int // candidate sizes for long strings/idents when LongTail
 	NoNL       bool  // string literals never denote a line break (line-oriented output oracles)
+	SmallInts  bool  // integer literals stay below 2^16 (so that no product with a string can be huge)
 }
 
 func DefaultCfg(r *prng.R) Cfg {
@@ -99,8 +100,9 @@ type scopeVar struct {
 }
 
 type blockScope struct {
-	fields []scopeVar
-	nvars  int // vars declared in this scope (index into g.vars at entry)
+	fields   []scopeVar
+	nvars    int      // vars declared in this scope (index into g.vars at entry)
+	children []string // keys of the unnamed child blocks closed so far (readable as values)
 }
 
 type g struct {
@@ -173,7 +175,11 @@ func (g *g) fieldName() string {
 // ---- literals
 
 func (g *g) intLit() string {
-	switch g.r.Weighted(30, 8, 8, 10, 6, 6, 3, 2) {
+	w := []int{30, 8, 8, 10, 6, 6, 3, 2}
+	if g.cfg.SmallInts {
+		w = []int{30, 8, 8, 0, 0, 6, 0, 0}
+	}
+	switch g.r.Weighted(w...) {
 	case 0:
 		return fmt.Sprint(g.r.Range(2, 99))
 	case 1:
@@ -303,6 +309,13 @@ func (g *g) atom(t typ) {
 	case tNil:
 		g.kw("nil")
 	default:
+		// a closed child block can be read like a field: its value is the block itself
+		if !g.cfg.Safe && len(g.blocks) > 0 && g.r.Chance(1, 3) {
+			if ch := g.blocks[len(g.blocks)-1].children; len(ch) > 0 {
+				g.tok(prng.Pick(g.r, ch), KIdent)
+				return
+			}
+		}
 		g.atom(typ(g.r.Range(1, 5)))
 	}
 }
@@ -425,10 +438,22 @@ func (g *g) expr(t typ, d int) {
 	case tBool:
 		switch g.r.Weighted(3, 3, 2, 2, 1) {
 		case 0:
-			tt := typ(g.r.Range(1, 5))
+			if !g.cfg.Safe && len(g.blocks) > 0 && len(g.blocks[len(g.blocks)-1].children) > 0 && g.r.Chance(1, 3) {
+				// comparing block values (closed children read as fields) with each other and with scalars
+				ch := g.blocks[len(g.blocks)-1].children
+				g.tok(prng.Pick(g.r, ch), KIdent)
+				g.punct(prng.Pick(g.r, []string{"==", "!="}))
+				if g.r.Chance(2, 3) {
+					g.tok(prng.Pick(g.r, ch), KIdent)
+				} else {
+					g.atom(g.anyType())
+				}
+				return
+			}
+			tt := typ(g.r.Range(0, 5))
 			sub(tt)
 			g.punct(prng.Pick(g.r, []string{"==", "!="}))
-			sub(typ(g.r.Range(1, 5)))
+			sub(typ(g.r.Range(0, 5)))
 		case 1:
 			tt := prng.Pick(g.r, []typ{tInt, tFloat})
 			sub(tt)
@@ -612,6 +637,10 @@ func (g *g) blockStmt(usedKeys map[string]bool) {
 			key = bt + "." + name
 		}
 		usedKeys[key] = true
+	}
+	if name == "" && len(g.blocks) > 0 {
+		pb := &g.blocks[len(g.blocks)-1]
+		defer func() { pb = &g.blocks[len(g.blocks)-1]; pb.children = append(pb.children, bt) }()
 	}
 	g.tok(bt, KIdent)
 	if name != "" {
